@@ -1,7 +1,7 @@
 """Shared machinery of the checks: Coq build + assumption audit, extraction
 build, C++ driver build, running both sides, trace comparison, shrinking,
 known findings, evidence files."""
-import hashlib, json, os, random, re, subprocess, sys, time, glob
+import hashlib, json, os, random, re, subprocess, sys, time, glob, signal
 
 VERIF = os.path.dirname(os.path.dirname(os.path.abspath(__file__)))
 REPO = os.environ.get("VERIF_REPO", "/repo")
@@ -15,9 +15,19 @@ ALLOWED_AXIOMS = set()  # the development is axiom-free; any axiom printed fails
 
 
 def sh(cmd, timeout=None, cwd=None, env=None):
-    p = subprocess.run(cmd, shell=isinstance(cmd, str), capture_output=True, text=True,
-                       timeout=timeout, cwd=cwd, env=env)
-    return p.returncode, p.stdout, p.stderr
+    """run to completion; on timeout kill the whole process group (the C++ driver forks one child per block)"""
+    p = subprocess.Popen(cmd, shell=isinstance(cmd, str), stdout=subprocess.PIPE, stderr=subprocess.PIPE, text=True,
+                         cwd=cwd, env=env, start_new_session=True)
+    try:
+        out, err = p.communicate(timeout=timeout)
+    except subprocess.TimeoutExpired:
+        try:
+            os.killpg(p.pid, signal.SIGKILL)
+        except OSError:
+            pass
+        p.communicate()
+        raise
+    return p.returncode, out, err
 
 
 # ---------------------------------------------------------------------------
